@@ -81,6 +81,8 @@ MC_PiecesQuick == { <<CR>>, <<LF>>, <<BOM>>, <<LT>>, <<BANG>>, <<DASH>>, <<GT>>,
                     S_doctype, <<97, 109, 112>>, <<60, 47, 115, 99, 114, 105, 112, 116, 62>> }
 MC_Starts == {"Data", "RawData.Rcdata", "RawData.ScriptData", "BeforeAttributeName", "MarkupDeclarationOpen", "DoctypeName", "AfterDoctypeName"}
 MC_StartsQuick == {"Data", "BeforeAttributeName", "DoctypeName"}
+MC_StartsBav == {"BeforeAttributeValue", "AttributeName"}
+MC_PiecesBav == { <<CR>>, <<LF>>, <<LT>>, <<GT>>, <<97>>, <<EQUALS>>, <<SP>>, <<DQ>>, <<AMP>> }
 MC_Injects == { <<>>, <<<<120>>>>, <<<<LF>>, <<60, 98, 62>>>>, <<<<BOM, 97>>>> }
 MC_NoInjects == { <<>> }
 =============================================================================
